@@ -475,7 +475,9 @@ func (s *Server) handleConnReceiver(module *Module, crd *rsyncwire.CountingReade
 		// Descend into subdirectory (if requested),
 		// using the os.OpenRoot traversal-safe API.
 		if len(paths) == 1 && paths[0] != "/" {
-			subdir := strings.TrimPrefix(paths[0], "/")
+			// Clean the client-supplied path: a trailing slash would make the
+			// kernel follow a symlink in the last position, even below an os.Root.
+			subdir := filepath.Clean(strings.TrimPrefix(paths[0], "/"))
 			subRoot, err := rt.DestRoot.OpenRoot(subdir)
 			if err != nil {
 				if os.IsNotExist(err) {
